@@ -130,8 +130,10 @@ func (its *list) Insert(pos int, value interface{}) (interface{}, errors.OrdaErr
 }
 
 func (its *list) InsertMany(pos int, values ...interface{}) (interface{}, errors.OrdaError) {
-	if err := its.snapshot().validateInsertPosition(pos); err != nil {
-		return nil, err
+	var err0 errors.OrdaError
+	its.DoRead(its.TxCtx, func() { err0 = its.snapshot().validateInsertPosition(pos) })
+	if err0 != nil {
+		return nil, err0
 	}
 	jsonValues, err2 := types.ConvertValueList(values)
 	if err2 != nil {
@@ -146,8 +148,10 @@ func (its *list) InsertMany(pos int, values ...interface{}) (interface{}, errors
 }
 
 func (its *list) Update(pos int, values ...interface{}) ([]interface{}, errors.OrdaError) {
-	if err := its.snapshot().validateGetRange(pos, len(values)); err != nil {
-		return nil, err
+	var err0 errors.OrdaError
+	its.DoRead(its.TxCtx, func() { err0 = its.snapshot().validateGetRange(pos, len(values)) })
+	if err0 != nil {
+		return nil, err0
 	}
 	jsonValues, err2 := types.ConvertValueList(values)
 	if err2 != nil {
@@ -172,8 +176,10 @@ func (its *list) Delete(pos int) (interface{}, errors.OrdaError) {
 
 // DeleteMany deletes the nodes at index pos in sequence.
 func (its *list) DeleteMany(pos int, numOfNode int) ([]interface{}, errors.OrdaError) {
-	if err := its.snapshot().validateGetRange(pos, numOfNode); err != nil {
-		return nil, err
+	var err0 errors.OrdaError
+	its.DoRead(its.TxCtx, func() { err0 = its.snapshot().validateGetRange(pos, numOfNode) })
+	if err0 != nil {
+		return nil, err0
 	}
 	op := operations.NewDeleteOperation(pos, numOfNode)
 	ret, err := its.SentenceInTx(its.TxCtx, op, true)
